@@ -355,7 +355,7 @@ func GenShape(t *rapid.T, m *Method, srcLocal bool) {
 		m.Opts.Style = "arg"
 	}
 	if srcLocal && rapid.IntRange(0, 3).Draw(t, "recv") == 0 {
-		m.Recv = rapid.SampledFrom([]string{"r", "x", "me"}).Draw(t, "recvName")
+		m.Recv = rapid.SampledFrom([]string{"r", "x", "me", "my_r", "r2", "_r", "\u00fcber"}).Draw(t, "recvName")
 	}
 	if m.Opts.Style == "arg" && rapid.IntRange(0, 4).Draw(t, "reverse") == 0 {
 		m.Reverse = true
